@@ -6,6 +6,7 @@ import (
 	"fmt"
 	"os"
 	"path/filepath"
+	"reflect"
 	"sort"
 	"strings"
 	"sync"
@@ -61,17 +62,33 @@ func c19Place(sh *c19Shared, region int, data []byte) []byte {
 
 type c19Shared struct {
 	arena []byte
-	keys [3][16]byte // a small pool of key VALUES: distinct goroutines legitimately use equal keys
-	sp   *refcodec.Spec
-	msgs []*nas.Message // decoded messages shared read-only by all goroutines
-	gmm  []*refcodec.Msg
+	keys  [3][16]byte // a small pool of key VALUES: distinct goroutines legitimately use equal keys
+	sp    *refcodec.Spec
+	msgs  []*nas.Message // decoded messages shared read-only by all goroutines
+	gmm   []*refcodec.Msg
 }
 
 func h64(b []byte) uint64 { return core.HashBytes(0, b) }
 
 func hs(s string) uint64 { return core.HashStr(0, s) }
 
-var c19Kinds = []string{"decode", "encode", "cipher1", "cipher2", "cipher3", "mac1", "mac2", "mac3", "accessor", "ident", "lists", "misc", "qos", "pco", "uepolicy", "count-alloc", "shared-encode", "shared-getters"}
+var c19Kinds = []string{"decode", "encode", "cipher1", "cipher2", "cipher3", "mac1", "mac2", "mac3", "accessor", "ident", "lists", "misc", "qos", "pco", "uepolicy", "count-alloc", "shared-encode", "shared-getters", "handoff", "zones"}
+
+// c19Handoff is the receive-loop pattern: decode into a receiver variable, hand
+// the decoded VALUE to another goroutine, decode the next PDU into the same
+// variable while the other goroutine reads what it was given. The two values are
+// distinct for the caller; a decoder that recycles the receiver's memory makes
+// them one.
+func c19Handoff(recv interface{}, decode func([]byte) error, pdu1, pdu2 []byte) uint64 {
+	err1 := decode(pdu1)
+	v := reflect.ValueOf(recv).Elem()
+	given := reflect.New(v.Type()).Elem()
+	given.Set(v)
+	done := make(chan uint64, 1)
+	go func() { done <- fingerprint(given) }()
+	err2 := decode(pdu2)
+	return <-done ^ fingerprint(v)<<1 ^ hs(fmt.Sprint(err1, err2))
+}
 
 // c19Run executes one item on private values (or read-only on shared ones) and
 // returns a digest of everything it produced.
@@ -210,6 +227,30 @@ func c19Run(sh *c19Shared, it c19Item) (res uint64) {
 		var fd nasType.QoSFlowDescs
 		err3 := fd.UnmarshalBinary(refconv.SerializeDescs(genDescs(r, 2)))
 		return h64(b) ^ uint64(len(back)) ^ uint64(len(fd))<<4 ^ hs(fmt.Sprint(err, err2, err3))
+	case "handoff":
+		switch r.Intn(4) {
+		case 0:
+			var rx nasType.QoSFlowDescs
+			return c19Handoff(&rx, rx.UnmarshalBinary, refconv.SerializeDescs(genDescs(r, 1+r.Intn(4))), refconv.SerializeDescs(genDescs(r, 1+r.Intn(4))))
+		case 1:
+			var rx nasType.QoSRules
+			return c19Handoff(&rx, rx.UnmarshalBinary, refconv.SerializeRules(genRules(r, 1+r.Intn(3), r.Intn(18))), refconv.SerializeRules(genRules(r, 1+r.Intn(3), r.Intn(18))))
+		case 2:
+			var rx uePolicyContainer.UEPolicySectionManagementListContent
+			return c19Handoff(&rx, rx.UnmarshalBinary, refSubLists(genSubs(r, 1+r.Intn(3))), refSubLists(genSubs(r, 1+r.Intn(3))))
+		default:
+			rx := nasConvert.NewProtocolConfigurationOptions()
+			return c19Handoff(rx, rx.UnMarshal, pcoContents(r, r.Intn(8)), pcoContents(r, r.Intn(8)))
+		}
+	case "zones":
+		// instants in zones with daylight saving of one hour, thirty minutes and two hours
+		loc := c17Loc(r.Intn(len(c17Locations)))
+		t := time.Unix(946684800+int64(r.Intn(3000000000)), 0).In(loc)
+		z := nasConvert.GetTimeZone(t)
+		ts := nasConvert.EncodeUniversalTimeAndLocalTimeZoneToNas(t)
+		back := nasConvert.DecodeUniversalTimeAndLocalTimeZone(ts)
+		ds := nasConvert.EncodeDaylightSavingTimeToNas(z)
+		return hs(z) ^ h64(ts.Octet[:]) ^ uint64(back.Unix())<<4 ^ uint64(ds.Octet)<<20
 	case "pco":
 		p := nasConvert.NewProtocolConfigurationOptions()
 		p.AddDNSServerIPv4AddressRequest()
@@ -489,7 +530,6 @@ func c19Item1(c *core.Ctx, k *core.Case) {
 		}
 	}
 }
-
 
 // c19Post parses the race detector's logs written by the shards.
 func c19Post(pi *core.PostInfo) (vios []*core.Violation, inconcl []string) {
